@@ -452,6 +452,7 @@ def finish(prop, level, results, args, t0, *, design_ref='', assumptions=(), bou
         'samples': samples or [{'note': 'no obligations generated'}],
         'traces_validated_against_impl': tot('traces_validated'),
         'configurations': len(results),
+        'configurations_refused_by_constructor': tot('refused'),
         'inconclusive': len(inconclusive),
         'inconclusive_list': inconclusive[:60],
         'canaries': tot('canaries'),
